@@ -9,9 +9,13 @@
     eq        {"a":v,"b":v}      Value.beq both ways, kind comparison, hash comparison
     rec-ops   {"a":[[k,v]…],"b":[[k,v]…],"probes":[k…]}  records built by assigning the pairs in order:
               Go-map model (`RecImpl`) and key-sorted list model (`mkRecord`) must coincide
+    alias-history {"ops":[op…],"disc":"go"|"alias-ctor"|…}  a history over the reference-level heap model
+              (Model/Alias.lean) — the same history the harness replays on the real Go objects; answer = the
+              rendering of every live value object and every caller-owned container after EVERY step
 -/
 import CedarGo.Driver.Ops.Core
 import CedarGo.Model.SetImpl
+import CedarGo.Model.Alias
 namespace CedarGo.Driver
 open Lean CedarGo
 
@@ -106,7 +110,106 @@ def opRecOps : Handler := fun _ j => do
     else .ok ("MODEL-MISMATCH " ++ " | ".intercalate (rs.map fun p => p.1 ++ ": " ++ p.2))
   | [] => .error "unreachable"
 
+/-! ### alias-history: histories over the reference-level heap model -/
+
+def c11InsertDup (s : String) : List String → List String
+  | [] => [s]
+  | x :: xs => if s < x || s == x then s :: x :: xs else x :: c11InsertDup s xs
+
+/-- sort keeping duplicates (multiset rendering) -/
+def c11SortDup (xs : List String) : List String := xs.foldl (fun acc s => c11InsertDup s acc) []
+
+def c11DecSrc (j : Json) : D Alias.Src := do
+  match j with
+  | .arr #[.str "live", i] => .ok (.live (← jNat i))
+  | _ => .ok (.scalar (← decValue j))
+
+def c11DecOptNat (j : Json) : D (Option Nat) :=
+  match j with
+  | .null => .ok none
+  | _ => do .ok (some (← jNat j))
+
+def c11DecOp (j : Json) : D Alias.Op := do
+  match ← jArr j with
+  | [.str "mkSlice", xs] => .ok (.mkSlice (← (← jArr xs).mapM c11DecSrc))
+  | [.str "mkMap", kvs] => do
+      let ps ← (← jArr kvs).mapM fun kv => do
+        match ← jArr kv with
+        | [k, v] => .ok ((← jHex k), (← c11DecSrc v))
+        | _ => .error "bad kv"
+      .ok (.mkMap ps)
+  | [.str "copyCont", r] => .ok (.copyCont (← jNat r))
+  | [.str "newRecord", r] => .ok (.newRecord (← c11DecOptNat r))
+  | [.str "newSet", r] => .ok (.newSet (← c11DecOptNat r))
+  | [.str "newUIDSet", r] => .ok (.newUIDSet (← c11DecOptNat r))
+  | [.str "recordMap", i] => .ok (.recordMap (← jNat i))
+  | [.str "recordGet", i, k] => .ok (.recordGet (← jNat i) (← jHex k))
+  | [.str "recordAll", i] => .ok (.recordAll (← jNat i))
+  | [.str "setSlice", i] => .ok (.setSlice (← jNat i))
+  | [.str "setAll", i] => .ok (.setAll (← jNat i))
+  | [.str "unmarshalRecord", i, kvs] => .ok (.unmarshalRecord (← jNat i) (← decPairs kvs))
+  | [.str "unmarshalSet", i, xs] => .ok (.unmarshalSet (← jNat i) (← decValues xs))
+  | [.str "setKey", r, k, x] => .ok (.setKey (← jNat r) (← jHex k) (← c11DecSrc x))
+  | [.str "delKey", r, k] => .ok (.delKey (← jNat r) (← jHex k))
+  | [.str "clearMap", r] => .ok (.clearMap (← jNat r))
+  | [.str "setElem", r, i, x] => .ok (.setElem (← jNat r) (← jNat i) (← c11DecSrc x))
+  | [.str "fillSlice", r, x] => .ok (.fillSlice (← jNat r) (← c11DecSrc x))
+  | [.str "appendElem", r, x] => .ok (.appendElem (← jNat r) (← c11DecSrc x))
+  | [.str "reslice", r, n] => .ok (.reslice (← jNat r) (← jNat n))
+  | [.str "readElem", r, i] => .ok (.readElem (← jNat r) (← jNat i))
+  | [.str "readKey", r, k] => .ok (.readKey (← jNat r) (← jHex k))
+  | _ => .error s!"bad alias op {j.compress}"
+
+def c11Disc (name : String) : D Alias.Disc :=
+  match name with
+  | "go" => .ok Alias.goDisc
+  | "alias-ctor" => .ok { Alias.goDisc with newRecord := .alias }
+  | "alias-empty-ctor" => .ok { Alias.goDisc with newRecord := .aliasWhenEmpty }
+  | "alias-map" => .ok { Alias.goDisc with recordMap := .alias }
+  | "alias-slice" => .ok { Alias.goDisc with setSlice := .alias }
+  | "alias-decoder" => .ok { Alias.goDisc with unmarshalRecord := .alias }
+  | _ => .error s!"unknown discipline {name}"
+
+/-- a live value object: its pure value; `~` marks the nil map of `Record{}` / `NewRecord(nil)` (observable: `Map()`
+    is nil; the nil table of `Set{}` / `NewSet()` is not observable through the API: `Slice()` of any empty set is nil) -/
+def c11ShowObj (h : Alias.Heap) (v : Alias.VObj) : String :=
+  showValue (Alias.abs h v) ++ (match v with | .ref .record none => "~" | _ => "")
+
+/-- a caller-owned container: a map as the record it spells, a slice as the multiset of its first `len` elements -/
+def c11ShowOwned (h : Alias.Heap) (r : Alias.Ref) : String :=
+  match h[r.addr]? with
+  | some (.map kvs) => "m" ++ showValue (Alias.absCont .record (some (.map kvs)) (Alias.abs h))
+  | some (.seq xs) => "(" ++ ",".intercalate (c11SortDup ((xs.take r.len).map (c11ShowObj h))) ++ ")"
+  | none => "?"
+
+/-- live values, segment by segment; the values yielded by an iterator come in no particular order -/
+def c11ShowLive (h : Alias.Heap) : List Alias.VObj → List (Nat × Bool) → List String
+  | _, [] => []
+  | vs, (n, unordered) :: segs =>
+    let seg := (vs.take n).map (c11ShowObj h)
+    (if unordered then c11SortDup seg else seg) ++ c11ShowLive h (vs.drop n) segs
+
+def c11ShowState (s : Alias.State) (segs : List (Nat × Bool)) : String :=
+  "L:" ++ " ".intercalate (c11ShowLive s.heap s.live segs) ++ " O:" ++ " ".intercalate (s.owned.map (c11ShowOwned s.heap))
+
+def c11IsIter : Alias.Op → Bool
+  | .recordAll _ => true
+  | .setAll _ => true
+  | _ => false
+
+def c11RunShow (d : Alias.Disc) : Alias.State → List (Nat × Bool) → List Alias.Op → List String
+  | _, _, [] => []
+  | s, segs, op :: ops =>
+    let s' := Alias.step d s op
+    let segs' := segs ++ [(s'.live.length - s.live.length, c11IsIter op)]
+    c11ShowState s' segs' :: c11RunShow d s' segs' ops
+
+def opAliasHistory : Handler := fun _ j => do
+  let ops ← (← jArr (← field j "ops")).mapM c11DecOp
+  let d ← c11Disc (← jStr (fieldOr j "disc" (.str "go")))
+  .ok (" | ".intercalate (c11RunShow d Alias.init [] ops))
+
 def c11Ops : List (String × Handler) :=
-  [("set-ops", opSetOps), ("hash", opHash), ("eq", opEq), ("rec-ops", opRecOps)]
+  [("set-ops", opSetOps), ("hash", opHash), ("eq", opEq), ("rec-ops", opRecOps), ("alias-history", opAliasHistory)]
 
 end CedarGo.Driver
